@@ -5,7 +5,7 @@
 exit 0: the property held on everything explored (KNOWN-FINDING lines allowed)
 exit 1: a line `VIOLATION property=<id> replay=<path>[ no-failing-input-found]` was printed
 exit 2: the machinery itself could not run (tree does not compile, tool missing)"""
-import argparse, collections, concurrent.futures as cf, hashlib, json, os, sys, time, traceback
+import argparse, collections, re, concurrent.futures as cf, hashlib, json, os, sys, time, traceback
 sys.path.insert(0, os.path.dirname(os.path.abspath(__file__)))
 import vlib
 from vlib import VERIF, WORK, LEAN
@@ -274,7 +274,7 @@ def main():
     # ---- 4. classify failures -------------------------------------------------------------------
     unknown = []
     for fl in failures:
-        m = next((k for k in known if fl["path"].startswith(k["key"])), None)
+        m = next((k for k in known if fl["path"].startswith(k["key"]) or ("regex" in k and re.search(k["regex"], fl["path"]))), None)
         if m:
             known_seen.setdefault(m["key"], [m, 0])
             known_seen[m["key"]][1] += 1
